@@ -29,8 +29,8 @@ func (c04) Assumptions() []string {
 		"the driven client never re-enters get-or-create for a name that is on the creation stack without an early factory (the real factory always registers one first)",
 	}
 }
-func (c04) drivenCount(tier string) int   { return tierN(tier, 5000, 200000) }
-func (c04) tracedCount(tier string) int   { return tierN(tier, 1500, 40000) }
+func (c04) drivenCount(tier string) int   { return tierN(tier, 5000, 1500000) }
+func (c04) tracedCount(tier string) int   { return tierN(tier, 1500, 300000) }
 func (p c04) NumCases(tier string) int    { return p.drivenCount(tier) + p.tracedCount(tier) }
 func (c04) MinNontrivial(tier string) int { return tierN(tier, 500, 5000) }
 
